@@ -1134,6 +1134,28 @@ Proof.
 Qed.
 
 
+(* ---- cached_property: a stored value is the value a fresh computation gives ---- *)
+Lemma cached_properties_as_modelled : cached_properties = expected_cached_properties.
+Proof. vm_compute. reflexivity. Qed.
+
+Definition memo_sound {V} (f : nat -> V) (m : memo V) : Prop := forall k v, memo_find m k = Some v -> v = f k.
+Lemma memo_read_spec {V} (f : nat -> V) m k : memo_sound f m ->
+  memo_sound f (fst (memo_read f m k)) /\ snd (memo_read f m k) = f k.
+Proof.
+  intros H. unfold memo_read. destruct (memo_find m k) as [v|] eqn:E; cbn [fst snd].
+  - split; [exact H|apply H, E].
+  - split; [|reflexivity]. intros k' v'. cbn [memo_find]. destruct (Nat.eqb k' k) eqn:K.
+    + apply Nat.eqb_eq in K. subst. intros X; inversion X; reflexivity.
+    + apply H.
+Qed.
+Lemma memo_transparent {V} (f : nat -> V) reads k : snd (memo_read f (memo_run f reads) k) = f k.
+Proof.
+  apply memo_read_spec. unfold memo_run.
+  assert (G : forall l m, memo_sound f m -> memo_sound f (fold_left (fun m k => fst (memo_read f m k)) l m)).
+  { induction l as [|x l IH]; intros m H; [exact H|]. cbn. apply IH. apply memo_read_spec, H. }
+  apply G. intros k' v'. discriminate.
+Qed.
+
 (* ---- statements of Props/C16.v ---- *)
 Definition renders (s : str) (p : nat) (m : str) : Prop :=
   exists text, xpe_str (Some s) (Some p) (Some m) = Some text.
